@@ -124,9 +124,12 @@ def replay_doc(ctx, doc, n, variant=None):
             got = prs.pc_conditional(df, by, on, group_weights=w)
             if not val_ok(got, res):
                 viol("wrong_value", f"= {got!r} want {res}")
-            if w is not None and n % 6 == 0:
+            if w is not None and zlib.crc32(str(n + 5).encode()) % 4 == 0:
                 # the caller's own weight vector (float ndarray / int ndarray / tuple): left untouched and reusable
-                for warr in (np.array(w, dtype=float), np.array(w), tuple(w)):
+                import pandas as pd
+                # ... and pandas Series of weights (array-like): taken by position, whatever their index labels say
+                for warr in (np.array(w, dtype=float), np.array(w), tuple(w), pd.Series(w), pd.Series(w, index=[f"w{i}" for i in range(len(w))]),
+                             pd.Series(w, index=list(range(len(w)))[::-1], dtype=float)):
                     keep = np.array(warr, dtype=float).copy()
                     first = prs.pc_conditional(df, by, on, group_weights=warr)
                     second = prs.pc_conditional(df, by, on, group_weights=warr)
